@@ -1,6 +1,7 @@
 package main
 
 import (
+	"fmt"
 	"go/ast"
 	"go/parser"
 	"go/token"
@@ -42,13 +43,34 @@ func exprString(e ast.Expr) string {
 }
 
 // decoderSites lists every place in cog's non-test code (internal/, cmd/) where yaml.v3 decodes
-// a document: `d := yaml.NewDecoder(r)` … `d.Decode(x)`, with whether `d.KnownFields(true)`
-// is called on the same variable in the same function before the Decode; and every
-// `yaml.Unmarshal(…)` (which has no strict mode) as a non-strict site. Refuses on a decoder
-// that is not bound to a plain local variable (its strictness could not be read off).
+// a document, with whether the decoder is strict (`KnownFields(true)`) when `Decode` is called;
+// every `yaml.Unmarshal(…)` (which has no strict mode) is a non-strict site.
+//
+// A decoder value is followed through
+//   - one or more local variables (`d := yaml.NewDecoder(r)`, `dec := d`),
+//   - the single result of a same-package constructor helper (`func f(…) *yaml.Decoder`), whose
+//     result is strict iff on every `return` the returned decoder is strict (a helper may call
+//     another helper),
+//   - a call chain `yaml.NewDecoder(r).Decode(x)` / `helper(r).Decode(x)`.
+//
+// A variable is strict at a `Decode` when it was born strict (strict helper) or
+// `v.KnownFields(true)` is a statement of the function's top-level block located before it.
+// Any other use of a decoder variable (argument of another call, stored in a field, captured
+// by a closure that is passed around, …) is not understood: soft refusal + non-strict site.
+//
+// A site is attributed to a loader when the loader's function (looked up by name in the
+// package directory of its source file) contains it or reaches it through same-package calls.
+type srcFunc struct {
+	file  string // relative to the repo
+	dir   string
+	alias string // name under which this file imports yaml.v3 ("" if it does not)
+	decl  *ast.FuncDecl
+	name  string
+}
+
 func decoderSites(repo string, sps []fileSpec) []site {
-	var sites []site
 	fset := token.NewFileSet()
+	byDir := map[string][]*srcFunc{}
 	for _, top := range []string{"internal", "cmd"} {
 		_ = filepath.WalkDir(filepath.Join(repo, top), func(path string, d fs.DirEntry, err error) error {
 			if err != nil || d.IsDir() || !strings.HasSuffix(path, ".go") || strings.HasSuffix(path, "_test.go") {
@@ -71,24 +93,26 @@ func decoderSites(repo string, sps []fileSpec) []site {
 					}
 				}
 			}
-			if alias == "" || alias == "_" {
-				return nil
+			if alias == "_" {
+				alias = ""
 			}
 			if alias == "." {
 				refuse("%s dot-imports yaml.v3", path)
 			}
 			rel, _ := filepath.Rel(repo, path)
+			dir := filepath.Dir(rel)
 			for _, decl := range f.Decls {
-				fd, ok := decl.(*ast.FuncDecl)
-				if !ok || fd.Body == nil {
-					continue
-				}
-				sites = append(sites, sitesIn(rel, fd, alias)...)
-			}
-			// yaml.NewDecoder outside of a function body (package-level var) is not understood
-			for _, decl := range f.Decls {
-				if gd, ok := decl.(*ast.GenDecl); ok {
-					ast.Inspect(gd, func(n ast.Node) bool {
+				switch x := decl.(type) {
+				case *ast.FuncDecl:
+					if x.Body != nil {
+						byDir[dir] = append(byDir[dir], &srcFunc{file: rel, dir: dir, alias: alias, decl: x, name: funcName(x)})
+					}
+				case *ast.GenDecl:
+					if alias == "" {
+						continue
+					}
+					// yaml decoding outside of a function body (package-level var) is not understood
+					ast.Inspect(x, func(n ast.Node) bool {
 						if isPkgCall(n, alias, "NewDecoder") || isPkgCall(n, alias, "Unmarshal") {
 							refuse("%s: yaml decoding at package level", rel)
 						}
@@ -99,25 +123,144 @@ func decoderSites(repo string, sps []fileSpec) []site {
 			return nil
 		})
 	}
-	sort.Slice(sites, func(a, b int) bool {
+	var sites []site
+	var dirs []string
+	for d := range byDir {
+		dirs = append(dirs, d)
+	}
+	sort.Strings(dirs)
+	siteFuncs := map[string]map[string]bool{} // dir -> functions holding a site
+	for _, dir := range dirs {
+		funcs := byDir[dir]
+		usesYAML := false
+		for _, f := range funcs {
+			if f.alias != "" {
+				usesYAML = true
+			}
+		}
+		if !usesYAML {
+			continue
+		}
+		// constructor helpers: fixed point on "the returned decoder is strict"
+		helpers := map[string]bool{} // plain function name -> strict
+		for _, f := range funcs {
+			if f.decl.Recv == nil && f.alias != "" && returnsDecoder(f.decl, f.alias) {
+				helpers[f.name] = false
+			}
+		}
+		for round := 0; round <= len(helpers); round++ {
+			changed := false
+			for _, f := range funcs {
+				if _, ok := helpers[f.name]; !ok || f.decl.Recv != nil {
+					continue
+				}
+				a := analyseFunc(f, helpers, true)
+				if a.returnsStrict != helpers[f.name] {
+					helpers[f.name] = a.returnsStrict
+					changed = true
+				}
+			}
+			if !changed {
+				break
+			}
+		}
+		for _, f := range funcs {
+			if f.alias == "" {
+				continue
+			}
+			_, isHelper := helpers[f.name]
+			a := analyseFunc(f, helpers, isHelper && f.decl.Recv == nil)
+			for _, p := range a.problems {
+				softRefuse("%s", p)
+			}
+			for _, s := range a.sites {
+				sites = append(sites, s)
+				if siteFuncs[dir] == nil {
+					siteFuncs[dir] = map[string]bool{}
+				}
+				siteFuncs[dir][f.name] = true
+			}
+		}
+	}
+	sort.SliceStable(sites, func(a, b int) bool {
 		if sites[a].File != sites[b].File {
 			return sites[a].File < sites[b].File
 		}
 		return sites[a].Func < sites[b].Func
 	})
+	// attribution
+	var attributed []site
 	for _, sp := range sps {
+		dir := filepath.Dir(sp.SrcFile)
+		reach := reachable(byDir[dir], sp.SrcFunc)
 		found := false
-		for i := range sites {
-			if sites[i].File == sp.SrcFile && sites[i].Func == sp.SrcFunc {
-				sites[i].Loader = sp.Name
+		for _, s := range sites {
+			if filepath.Dir(s.File) == dir && reach[s.Func] {
+				c := s
+				c.Loader = sp.Name
+				attributed = append(attributed, c)
 				found = true
 			}
 		}
 		if !found {
-			softRefuse("no yaml decoder construction site found in %s:%s for the %s loader", sp.SrcFile, sp.SrcFunc, sp.Name)
+			softRefuse("no yaml decoding site is reached from %s (package %s) for the %s loader", sp.SrcFunc, dir, sp.Name)
 		}
 	}
-	return sites
+	// sites that serve no loader are still listed (and must be strict)
+	for _, s := range sites {
+		served := false
+		for _, a := range attributed {
+			if a.File == s.File && a.Func == s.Func && a.Target == s.Target {
+				served = true
+			}
+		}
+		if !served {
+			attributed = append(attributed, s)
+		}
+	}
+	return attributed
+}
+
+// reachable: names of the functions of one package directory reachable from `from` through calls
+// `g(…)` (plain functions) or `x.m(…)` (any method named m; over-approximation).
+func reachable(funcs []*srcFunc, from string) map[string]bool {
+	byName := map[string][]*srcFunc{}
+	for _, f := range funcs {
+		byName[f.name] = append(byName[f.name], f)
+	}
+	out := map[string]bool{}
+	var visit func(name string)
+	visit = func(name string) {
+		if out[name] {
+			return
+		}
+		fs, ok := byName[name]
+		if !ok {
+			return
+		}
+		out[name] = true
+		for _, f := range fs {
+			ast.Inspect(f.decl.Body, func(n ast.Node) bool {
+				call, ok := n.(*ast.CallExpr)
+				if !ok {
+					return true
+				}
+				switch fun := call.Fun.(type) {
+				case *ast.Ident:
+					visit(fun.Name)
+				case *ast.SelectorExpr:
+					for other := range byName {
+						if strings.HasSuffix(other, "."+fun.Sel.Name) {
+							visit(other)
+						}
+					}
+				}
+				return true
+			})
+		}
+	}
+	visit(from)
+	return out
 }
 
 func isPkgCall(n ast.Node, alias, fn string) bool {
@@ -133,106 +276,283 @@ func isPkgCall(n ast.Node, alias, fn string) bool {
 	return ok && id.Name == alias
 }
 
-func sitesIn(file string, fd *ast.FuncDecl, alias string) []site {
-	var out []site
-	name := funcName(fd)
-	type decoder struct {
-		pos    token.Pos
-		strict token.Pos // position of KnownFields(true), 0 if none
+// returnsDecoder: the function has exactly one result, of type *yaml.Decoder
+func returnsDecoder(fd *ast.FuncDecl, alias string) bool {
+	if fd.Type.Results == nil || len(fd.Type.Results.List) != 1 || len(fd.Type.Results.List[0].Names) > 1 {
+		return false
 	}
-	decoders := map[string]*decoder{}
-	bound := map[*ast.CallExpr]bool{}
+	star, ok := fd.Type.Results.List[0].Type.(*ast.StarExpr)
+	if !ok {
+		return false
+	}
+	sel, ok := star.X.(*ast.SelectorExpr)
+	if !ok || sel.Sel.Name != "Decoder" {
+		return false
+	}
+	id, ok := sel.X.(*ast.Ident)
+	return ok && id.Name == alias
+}
+
+type funcAnalysis struct {
+	sites         []site
+	problems      []string
+	returnsStrict bool // constructor helpers only
+}
+
+type decVar struct {
+	born   token.Pos
+	strict token.Pos // 0: not strict; 1: born strict (strict helper); else position of KnownFields(true)
+}
+
+// helperCall: `h(…)` with h a constructor helper of this package
+func helperCall(e ast.Expr, helpers map[string]bool) (strict, ok bool) {
+	call, isCall := e.(*ast.CallExpr)
+	if !isCall {
+		return false, false
+	}
+	id, isIdent := call.Fun.(*ast.Ident)
+	if !isIdent {
+		return false, false
+	}
+	strict, ok = helpers[id.Name]
+	return strict, ok
+}
+
+func analyseFunc(f *srcFunc, helpers map[string]bool, isHelper bool) funcAnalysis {
+	var a funcAnalysis
+	fd, alias, name := f.decl, f.alias, f.name
+	problem := func(format string, args ...any) {
+		a.problems = append(a.problems, f.file+":"+name+": "+fmt.Sprintf(format, args...))
+	}
+	nonStrict := func(target string) {
+		a.sites = append(a.sites, site{File: f.file, Func: name, KnownFields: false, Target: target})
+	}
+	vars := map[string]*decVar{}
+	allowed := map[token.Pos]bool{}      // identifier occurrences of decoder variables that are understood
+	consumed := map[*ast.CallExpr]bool{} // constructor calls that are bound or chained
+	// a decoder-producing expression: yaml.NewDecoder(…), helper(…), or a decoder variable
+	produce := func(e ast.Expr) (*decVar, bool) {
+		if isPkgCall(e, alias, "NewDecoder") {
+			consumed[e.(*ast.CallExpr)] = true
+			return &decVar{born: e.Pos()}, true
+		}
+		if strict, ok := helperCall(e, helpers); ok {
+			consumed[e.(*ast.CallExpr)] = true
+			d := &decVar{born: e.Pos()}
+			if strict {
+				d.strict = 1
+			}
+			return d, true
+		}
+		if id, ok := e.(*ast.Ident); ok {
+			if d, ok := vars[id.Name]; ok {
+				allowed[id.Pos()] = true
+				return d, true // alias: shares the record
+			}
+		}
+		return nil, false
+	}
+	bind := func(lhs ast.Expr, rhs ast.Expr) {
+		d, ok := produce(rhs)
+		if !ok {
+			return
+		}
+		id, isIdent := lhs.(*ast.Ident)
+		if !isIdent {
+			problem("decoder assigned to a non-identifier")
+			nonStrict("?")
+			return
+		}
+		if old, dup := vars[id.Name]; dup && old != d {
+			problem("decoder variable %s assigned twice", id.Name)
+			nonStrict("?")
+			return
+		}
+		vars[id.Name] = d
+		allowed[id.Pos()] = true
+	}
+	// pass 1 (source order): bindings
 	ast.Inspect(fd.Body, func(n ast.Node) bool {
 		switch x := n.(type) {
 		case *ast.AssignStmt:
-			if len(x.Lhs) == 1 && len(x.Rhs) == 1 && isPkgCall(x.Rhs[0], alias, "NewDecoder") {
-				id, ok := x.Lhs[0].(*ast.Ident)
-				if !ok {
-					softRefuse("%s:%s: decoder assigned to a non-identifier", file, name)
-					out = append(out, site{File: file, Func: name, KnownFields: false, Target: "?"})
-					return true
+			if len(x.Lhs) == len(x.Rhs) {
+				for i := range x.Lhs {
+					bind(x.Lhs[i], x.Rhs[i])
 				}
-				if _, dup := decoders[id.Name]; dup {
-					softRefuse("%s:%s: decoder variable %s assigned twice", file, name, id.Name)
-					out = append(out, site{File: file, Func: name, KnownFields: false, Target: "?"})
-					return true
+			}
+		case *ast.ValueSpec:
+			if len(x.Names) == len(x.Values) {
+				for i := range x.Names {
+					bind(x.Names[i], x.Values[i])
 				}
-				decoders[id.Name] = &decoder{pos: x.Pos()}
-				bound[x.Rhs[0].(*ast.CallExpr)] = true
 			}
 		}
 		return true
 	})
+	strictAt := func(d *decVar, pos token.Pos) bool {
+		return d.strict == 1 || (d.strict != 0 && d.strict < pos)
+	}
+	// pass 2: KnownFields calls (before the uses are judged)
 	ast.Inspect(fd.Body, func(n ast.Node) bool {
 		call, ok := n.(*ast.CallExpr)
 		if !ok {
 			return true
 		}
-		if isPkgCall(call, alias, "NewDecoder") && !bound[call] {
-			softRefuse("%s:%s: yaml.NewDecoder result is not bound to a local variable", file, name)
-			out = append(out, site{File: file, Func: name, KnownFields: false, Target: "?"})
-			return true
-		}
-		if isPkgCall(call, alias, "Unmarshal") {
-			target := "?"
-			if len(call.Args) == 2 {
-				target = exprString(call.Args[1])
-			}
-			out = append(out, site{File: file, Func: name, KnownFields: false, Target: "Unmarshal:" + target})
-		}
 		sel, ok := call.Fun.(*ast.SelectorExpr)
-		if !ok {
+		if !ok || sel.Sel.Name != "KnownFields" {
 			return true
 		}
 		id, ok := sel.X.(*ast.Ident)
 		if !ok {
 			return true
 		}
-		d, isDec := decoders[id.Name]
-		if !isDec {
+		d, ok := vars[id.Name]
+		if !ok {
 			return true
 		}
-		switch sel.Sel.Name {
-		case "KnownFields":
-			if len(call.Args) == 1 {
-				if lit, ok := call.Args[0].(*ast.Ident); ok && lit.Name == "true" {
-					if d.strict == 0 {
-						d.strict = call.Pos()
-					}
-					return true
-				}
+		allowed[id.Pos()] = true
+		lit, isLit := ast.Expr(nil), false
+		if len(call.Args) == 1 {
+			lit = call.Args[0]
+			if l, ok := lit.(*ast.Ident); ok && l.Name == "true" {
+				isLit = true
 			}
-			softRefuse("%s:%s: KnownFields called with a non-literal or false argument", file, name)
-		case "Decode":
-			target := "?"
-			if len(call.Args) == 1 {
-				target = exprString(call.Args[0])
-			}
-			strict := d.strict != 0 && d.strict < call.Pos() && strictUnconditional(fd, d.strict)
-			out = append(out, site{File: file, Func: name, KnownFields: strict, Target: target})
-		default:
-			softRefuse("%s:%s: unknown decoder method %s", file, name, sel.Sel.Name)
-			out = append(out, site{File: file, Func: name, KnownFields: false, Target: "?"})
+		}
+		switch {
+		case !isLit:
+			problem("KnownFields called with a non-literal or false argument")
+			d.strict = 0
+			d.born = token.Pos(1 << 40) // never strict
+		case !strictUnconditional(fd, call.Pos()):
+			// conditional strictness does not count (and is not an error by itself)
+		case d.strict == 0 && d.born < token.Pos(1<<40):
+			d.strict = call.Pos()
 		}
 		return true
 	})
-	for v := range decoders {
-		used := false
-		for _, s := range out {
-			if s.Func == name {
-				used = true
+	// pass 3: uses
+	ast.Inspect(fd.Body, func(n ast.Node) bool {
+		switch x := n.(type) {
+		case *ast.ReturnStmt:
+			if !isHelper {
+				return true
+			}
+			if len(x.Results) != 1 {
+				problem("constructor helper with a naked or multi-value return")
+				a.returnsStrict = false
+				return true
+			}
+			d, ok := produce(x.Results[0])
+			if !ok {
+				if id, isIdent := x.Results[0].(*ast.Ident); !isIdent || id.Name != "nil" {
+					problem("constructor helper returns something that is not followed")
+				}
+				return true
+			}
+			_ = d
+		case *ast.CallExpr:
+			if isPkgCall(x, alias, "Unmarshal") {
+				target := "?"
+				if len(x.Args) == 2 {
+					target = exprString(x.Args[1])
+				}
+				nonStrict("Unmarshal:" + target)
+				return true
+			}
+			sel, ok := x.Fun.(*ast.SelectorExpr)
+			if !ok {
+				return true
+			}
+			var d *decVar
+			if id, isIdent := sel.X.(*ast.Ident); isIdent {
+				if v, ok := vars[id.Name]; ok {
+					d = v
+					allowed[id.Pos()] = true
+				}
+			} else if v, ok := produce(sel.X); ok {
+				d = v // call chain: yaml.NewDecoder(r).Decode(x), helper(r).Decode(x)
+			}
+			if d == nil {
+				return true
+			}
+			switch sel.Sel.Name {
+			case "KnownFields":
+			case "Decode":
+				target := "?"
+				if len(x.Args) == 1 {
+					target = exprString(x.Args[0])
+				}
+				a.sites = append(a.sites, site{File: f.file, Func: name, KnownFields: strictAt(d, x.Pos()), Target: target})
+			default:
+				problem("unknown decoder method %s", sel.Sel.Name)
+				nonStrict("?")
 			}
 		}
-		if !used {
-			softRefuse("%s:%s: decoder %s is never used with Decode in this function (escapes?)", file, name, v)
-			out = append(out, site{File: file, Func: name, KnownFields: false, Target: "?"})
+		return true
+	})
+	// constructor helpers: strict iff every return yields a decoder that is strict at that point
+	if isHelper {
+		a.returnsStrict = true
+		any := false
+		ast.Inspect(fd.Body, func(n ast.Node) bool {
+			if _, isLit := n.(*ast.FuncLit); isLit {
+				return false
+			}
+			ret, ok := n.(*ast.ReturnStmt)
+			if !ok {
+				return true
+			}
+			if len(ret.Results) != 1 {
+				a.returnsStrict = false
+				return true
+			}
+			if id, isIdent := ret.Results[0].(*ast.Ident); isIdent && id.Name == "nil" {
+				return true // a nil decoder cannot decode anything
+			}
+			var d *decVar
+			if id, isIdent := ret.Results[0].(*ast.Ident); isIdent {
+				d = vars[id.Name]
+			} else if strict, ok := helperCall(ret.Results[0], helpers); ok {
+				d = &decVar{}
+				if strict {
+					d.strict = 1
+				}
+			} else if isPkgCall(ret.Results[0], alias, "NewDecoder") {
+				d = &decVar{}
+			}
+			any = true
+			if d == nil || !strictAt(d, ret.Pos()) {
+				a.returnsStrict = false
+			}
+			return true
+		})
+		if !any {
+			a.returnsStrict = false
 		}
 	}
-	return out
+	// anything else done with a decoder: constructor calls that are neither bound nor chained,
+	// decoder variables used outside of the understood positions
+	ast.Inspect(fd.Body, func(n ast.Node) bool {
+		switch x := n.(type) {
+		case *ast.CallExpr:
+			_, isH := helperCall(x, helpers)
+			if (isPkgCall(x, alias, "NewDecoder") || isH) && !consumed[x] {
+				problem("a decoder is constructed but not bound to a local variable, chained or returned")
+				nonStrict("?")
+			}
+		case *ast.Ident:
+			if _, ok := vars[x.Name]; ok && !allowed[x.Pos()] {
+				problem("decoder variable %s is used in a way that is not followed (escapes?)", x.Name)
+				nonStrict("?")
+			}
+		}
+		return true
+	})
+	return a
 }
 
 // strictUnconditional: the KnownFields(true) call is a statement of the function's top-level
-// block (not under an `if`/`for`/closure), so it is executed whenever the Decode is reached.
+// block (not under an `if`/`for`/closure), so it is executed whenever what follows is reached.
 func strictUnconditional(fd *ast.FuncDecl, pos token.Pos) bool {
 	for _, st := range fd.Body.List {
 		if es, ok := st.(*ast.ExprStmt); ok && es.X.Pos() <= pos && pos <= es.X.End() {
